@@ -126,8 +126,11 @@ func main() {
 	nreal := flag.Int("real", 1, "rounds of the real-engine scenarios (each round: every scenario x 4 engine modes)")
 	mpath := flag.String("model", "", "")
 	out := flag.String("out", "-", "")
-	only := flag.String("only", "", "sim | real (default both)")
+	only := flag.String("only", "", "sim | burst | real (default all)")
 	flag.Parse()
+	if *out != "" && *out != "-" {
+		hx.CurrentFile = *out + ".current"
+	}
 	logging.SetLogger(quiet{})
 	if *mpath != "" {
 		model = hx.StartModel(*mpath)
@@ -147,6 +150,9 @@ func main() {
 		"closed its connection is still running; every connection = one case, distinct = distinct (mode, origin, scenario)"
 	if *only == "" || *only == "sim" {
 		runSim(rep, *seed, *n)
+	}
+	if *only == "" || *only == "burst" {
+		runBurst(rep, *seed, *nreal > 4)
 	}
 	if *only == "" || *only == "real" {
 		runReal(rep, *seed, *nreal)
